@@ -25,8 +25,19 @@ public:
     static status assign_thread_info(Token& token) {
         for (auto&& elem : thread_info_table_) {
             if (elem.gain_the_right()) {
+                /**
+                 * The begin epoch must still be the current epoch when it becomes visible.
+                 * If the epoch advanced between reading it and publishing it, a stale begin
+                 * epoch would be published late and objects retired with it could be
+                 * released while a younger session still reads them.
+                 */
+                for (;;) {
                 YK_VPA(YK_LOAD, YK_C_EPOCH, epoch_management::verif_epoch_addr(), 8);
-                elem.set_begin_epoch(epoch_management::get_epoch());
+                    const Epoch cur_epoch = epoch_management::get_epoch();
+                    elem.set_begin_epoch(cur_epoch);
+                    std::atomic_thread_fence(std::memory_order_seq_cst);
+                    if (cur_epoch == epoch_management::get_epoch()) { break; }
+                }
                 token = &(elem);
                 return status::OK;
             }
